@@ -106,6 +106,20 @@ EciesPub(pre)  == {F(pre \o "version", "version"), F(pre \o "params", "msg"), F(
                    FB(pre \o "params.dem_params.aead_dem.value>hmac_key_format.params.tag_size", "tag", EciesCtr),
                    FB(pre \o "params.dem_params.aead_dem.value>hmac_key_format.params.hash", "hash", EciesCtr),
                    F(pre \o "params.ec_point_format", "enum3"), F(pre \o "x", "point"), F(pre \o "y", "point")}
+CompEd == {"COMPOSITE_MLDSA65_ED25519"}
+CompEc == {"COMPOSITE_MLDSA65_ECDSA_P256", "COMPOSITE_MLDSA87_ECDSA_P384"}
+\* composite ML-DSA: two nested KeyData (ML-DSA part, classical part); h = "private" / "public"
+Composite(h) ==
+  LET ml == "ml_dsa_" \o h \o "_key"   cl == "classical_" \o h \o "_key"
+      pk == IF h = "private" THEN "public_key." ELSE "" IN
+  {F("version", "version"), F("params", "msg"), F("params.ml_dsa_instance", "enum3"), F("params.classical_algorithm", "enum8"),
+   F(ml, "msg"), F(ml \o ".type_url", "url"), F(ml \o ".key_material_type", "enum4"), F(ml \o ".value", "opaque"),
+   F(ml \o ".value>version", "version"), F(ml \o ".value>key_value", "opaque"), F(ml \o ".value>" \o pk \o "params.ml_dsa_instance", "enum3"),
+   F(cl, "msg"), F(cl \o ".type_url", "url"), F(cl \o ".key_material_type", "enum4"), F(cl \o ".value", "opaque"),
+   F(cl \o ".value>version", "version"), F(cl \o ".value>key_value", "opaque"),
+   FB(cl \o ".value>" \o pk \o "params.curve", "curve", CompEc), FB(cl \o ".value>" \o pk \o "params.hash_type", "hash", CompEc),
+   FB(cl \o ".value>" \o pk \o "x", "point", CompEc)}
+  \cup (IF h = "private" THEN {F(ml \o ".value>public_key.key_value", "opaque"), F(cl \o ".value>public_key", "msg")} ELSE {})
 JwtEcdsaPub(pre) == {F(pre \o "version", "version"), F(pre \o "algorithm", "enum3"), F(pre \o "x", "point"), F(pre \o "y", "point"),
                      F(pre \o "custom_kid.value", "string")}
 JwtRsaPub(pre) == {F(pre \o "version", "version"), F(pre \o "algorithm", "enum3"), F(pre \o "n", "bigint"), F(pre \o "e", "bigint"),
@@ -156,6 +170,8 @@ KTFields(t) ==
     [] t = "MlDsaPrivateKey" -> {F("version", "version"), F("public_key", "msg"), F("key_value", "opaque")} \cup MlDsaPub("public_key.")
     [] t = "SlhDsaPublicKey"  -> SlhDsaPub("")
     [] t = "SlhDsaPrivateKey" -> {F("version", "version"), F("public_key", "msg"), F("key_value", "opaque")} \cup SlhDsaPub("public_key.")
+    [] t = "CompositeMlDsaPublicKey"  -> Composite("public")
+    [] t = "CompositeMlDsaPrivateKey" -> Composite("private")
     [] t = "HpkePublicKey"  -> HpkePub("")
     [] t = "HpkePrivateKey" -> {F("version", "version"), F("public_key", "msg"), F("private_key", "scalar")} \cup HpkePub("public_key.")
     [] t = "EciesAeadHkdfPublicKey"  -> EciesPub("")
@@ -198,6 +214,7 @@ KTBases(t) ==
               "JwtRsaSsaPkcs1PublicKey", "JwtRsaSsaPkcs1PrivateKey", "JwtRsaSsaPssPublicKey", "JwtRsaSsaPssPrivateKey"} -> RsaBases
     [] t \in {"MlDsaPublicKey", "MlDsaPrivateKey"} -> <<"ML_DSA_65", "ML_DSA_87">>
     [] t \in {"SlhDsaPublicKey", "SlhDsaPrivateKey"} -> <<"SLH_DSA_SHA2_128F", "SLH_DSA_SHA2_128S", "SLH_DSA_SHAKE_192F">>
+    [] t \in {"CompositeMlDsaPublicKey", "CompositeMlDsaPrivateKey"} -> <<"COMPOSITE_MLDSA65_ED25519", "COMPOSITE_MLDSA65_ECDSA_P256", "COMPOSITE_MLDSA87_ECDSA_P384">>
     [] t \in {"HpkePublicKey", "HpkePrivateKey"} -> HpkeBases
     [] t \in {"EciesAeadHkdfPublicKey", "EciesAeadHkdfPrivateKey"} -> <<"ECIES_P256_AES128_GCM", "ECIES_P256_AES128_CTR_HMAC_SHA256">>
     [] t \in {"JwtEcdsaPublicKey", "JwtEcdsaPrivateKey"} -> <<"JWT_ES256", "JWT_ES384", "JWT_ES512">>
@@ -208,7 +225,7 @@ KTTypes == {"AesGcmKey", "AesGcmSivKey", "AesCtrHmacAeadKey", "ChaCha20Poly1305K
             "JwtHmacKey", "PrfBasedDeriverKey",
             "EcdsaPublicKey", "EcdsaPrivateKey", "Ed25519PublicKey", "Ed25519PrivateKey", "RsaSsaPkcs1PublicKey", "RsaSsaPkcs1PrivateKey",
             "RsaSsaPssPublicKey", "RsaSsaPssPrivateKey", "MlDsaPublicKey", "MlDsaPrivateKey", "SlhDsaPublicKey", "SlhDsaPrivateKey",
-            "HpkePublicKey", "HpkePrivateKey", "EciesAeadHkdfPublicKey", "EciesAeadHkdfPrivateKey",
+            "CompositeMlDsaPublicKey", "CompositeMlDsaPrivateKey", "HpkePublicKey", "HpkePrivateKey", "EciesAeadHkdfPublicKey", "EciesAeadHkdfPrivateKey",
             "JwtEcdsaPublicKey", "JwtEcdsaPrivateKey", "JwtRsaSsaPkcs1PublicKey", "JwtRsaSsaPkcs1PrivateKey",
             "JwtRsaSsaPssPublicKey", "JwtRsaSsaPssPrivateKey", "JwtMlDsaPublicKey", "JwtMlDsaPrivateKey"}
 
